@@ -261,11 +261,19 @@ class ObjectRewriter(FileRewriter):
             return
         else:
             logger.debug("opening temp file for writing...")
-            with NamedTemporaryFile(mode=write_mode,
-                                    dir=os.path.dirname(in_path),
-                                    delete=False,
-                                    encoding=self.encoding_out) as outfile:
-                self.object_representer.dump(outfile, self.formatter(obj))
+            outfile = None
+            try:
+                with NamedTemporaryFile(mode=write_mode,
+                                        dir=os.path.dirname(in_path),
+                                        delete=False,
+                                        encoding=self.encoding_out) as outfile:
+                    self.object_representer.dump(outfile, self.formatter(obj))
+            except Exception:
+                # formatting, serializing or writing failed. don't leave the
+                # partial temp file behind next to the (untouched) source.
+                if outfile is not None:
+                    remove_temp_file(outfile.name)
+                raise
 
             logger.debug("moving temp file to: %s", in_path)
 
@@ -327,11 +335,20 @@ class StreamRewriter(FileRewriter):
                 return
             else:
                 logger.debug("opening temp file for writing...")
-                with NamedTemporaryFile(mode='w+t',
-                                        dir=os.path.dirname(in_path),
-                                        delete=False,
-                                        encoding=self.encoding_out) as outfile:
-                    outfile.writelines(self.formatter(infile))
+                outfile = None
+                try:
+                    with NamedTemporaryFile(
+                            mode='w+t',
+                            dir=os.path.dirname(in_path),
+                            delete=False,
+                            encoding=self.encoding_out) as outfile:
+                        outfile.writelines(self.formatter(infile))
+                except Exception:
+                    # formatting or writing failed. don't leave the partial
+                    # temp file behind next to the (untouched) source.
+                    if outfile is not None:
+                        remove_temp_file(outfile.name)
+                    raise
 
                 is_in_place_edit = True
 
@@ -602,14 +619,29 @@ def move_temp_file(src, dest):
     try:
         move_file(src, dest)
     except Exception:
-        try:
-            os.remove(src)
-        except Exception as ex_clean:
-            # at this point, something's deeply wrong, so log error.
-            # raising the original error, though, not this error in the
-            # error handler, as the 1st was the initial cause of all of
-            # this.
-            logger.error("error removing temp file %s. %s",
-                         src, ex_clean)
-
+        remove_temp_file(src)
         raise
+
+
+def remove_temp_file(path):
+    """Remove a temp file while handling another error. Log, don't raise.
+
+    Use this from an error handler where the original error is the one to
+    raise, not whatever might go wrong while cleaning up.
+
+    Args:
+        path: str or path-like. temp file to remove.
+
+    Returns:
+        None.
+
+    """
+    try:
+        os.remove(path)
+    except Exception as ex_clean:
+        # at this point, something's deeply wrong, so log error.
+        # raising the original error, though, not this error in the
+        # error handler, as the 1st was the initial cause of all of
+        # this.
+        logger.error("error removing temp file %s. %s",
+                     path, ex_clean)
